@@ -217,4 +217,189 @@ theorem runBudget_preserves (cfg : Cfg n) (Q : AMat Int n → Prop) (R R' : AMat
       rw [← hrun.1]
       exact untilSwaps_preserves cfg R.toFun Q hQ _ _ _ _ _ _ hi h0 q
 
+/-! ### lifting without `EmptyDiag`
+
+`loops_state` : any predicate on loop states that one pass of the attempt body preserves survives the
+budgeted / swap-counting loops.  Two uses: the directed routines, where one attempt is a no-op or
+`swapDir` on `a ≠ c, a ≠ d, b ≠ c, b ≠ d` whatever the matrix (no invariant needed at all), and the
+`triu1` edge list of `randomize_graph_partial_und`, which never lists a diagonal cell. -/
+
+theorem attempts_state (cfg : Cfg n) (P : St n k → Prop)
+    (hstep : ∀ (s s' : St n k) (ds rest : List ℕ) (ok : Bool), attempt cfg s ds = .ok (s', ok, rest) → P s → P s') :
+    ∀ (budget : ℕ) (s s' : St n k) (ds rest : List ℕ), attempts cfg budget s ds = .ok (s', rest) → P s → P s' := by
+  intro budget
+  induction budget with
+  | zero => intro s s' ds rest h q; simp only [attempts, Except.ok.injEq, Prod.mk.injEq] at h; rw [← h.1]; exact q
+  | succ b ih =>
+    intro s s' ds rest h q
+    simp only [attempts, bind, Except.bind] at h
+    cases ha : attempt cfg s ds with
+    | error e => simp [ha] at h
+    | ok r =>
+      obtain ⟨s1, ok, rest1⟩ := r
+      have q1 := hstep s s1 ds rest1 ok ha q
+      simp only [ha] at h
+      split at h
+      · simp only [Except.ok.injEq, Prod.mk.injEq] at h; rw [← h.1]; exact q1
+      · exact ih _ _ _ _ h q1
+
+theorem iters_state (cfg : Cfg n) (P : St n k → Prop)
+    (hstep : ∀ (s s' : St n k) (ds rest : List ℕ) (ok : Bool), attempt cfg s ds = .ok (s', ok, rest) → P s → P s')
+    (maxAtt : ℕ) :
+    ∀ (it : ℕ) (s s' : St n k) (ds rest : List ℕ), iters cfg maxAtt it s ds = .ok (s', rest) → P s → P s' := by
+  intro it
+  induction it with
+  | zero => intro s s' ds rest h q; simp only [iters, Except.ok.injEq, Prod.mk.injEq] at h; rw [← h.1]; exact q
+  | succ b ih =>
+    intro s s' ds rest h q
+    simp only [iters, bind, Except.bind] at h
+    cases ha : attempts cfg (maxAtt + 1) s ds with
+    | error e => simp [ha] at h
+    | ok r =>
+      obtain ⟨s1, rest1⟩ := r
+      simp only [ha] at h
+      exact ih _ _ _ _ h (attempts_state cfg P hstep _ _ _ _ _ ha q)
+
+theorem untilSwaps_state (cfg : Cfg n) (P : St n k → Prop)
+    (hstep : ∀ (s s' : St n k) (ds rest : List ℕ) (ok : Bool), attempt cfg s ds = .ok (s', ok, rest) → P s → P s') :
+    ∀ (fuel need : ℕ) (s s' : St n k) (ds rest : List ℕ), untilSwaps cfg fuel need s ds = .ok (s', rest) → P s → P s' := by
+  intro fuel
+  induction fuel with
+  | zero =>
+    intro need s s' ds rest h q
+    cases need with
+    | zero => simp only [untilSwaps, Except.ok.injEq, Prod.mk.injEq] at h; rw [← h.1]; exact q
+    | succ m => simp [untilSwaps] at h
+  | succ f ih =>
+    intro need s s' ds rest h q
+    cases need with
+    | zero => simp only [untilSwaps, Except.ok.injEq, Prod.mk.injEq] at h; rw [← h.1]; exact q
+    | succ m =>
+      simp only [untilSwaps, bind, Except.bind] at h
+      cases ha : attempt cfg s ds with
+      | error e => simp [ha] at h
+      | ok r =>
+        obtain ⟨s1, ok, rest1⟩ := r
+        simp only [ha] at h
+        exact ih _ _ _ _ _ h (hstep s s1 ds rest1 ok ha q)
+
+/-- a state predicate preserved by every attempt and true of the initial state is true of the final
+state of every successful run -/
+theorem runBudget_state (cfg : Cfg n) (R R' : AMat Int n) (itr eff : ℕ) (ds rest : List ℕ)
+    (P : St n (edgeCells cfg.src R).toArray.size → Prop)
+    (hstep : ∀ (s s' : St n (edgeCells cfg.src R).toArray.size) (ds rest : List ℕ) (ok : Bool),
+      attempt cfg s ds = .ok (s', ok, rest) → P s → P s')
+    (h0 : P (mkState R (edgeCells cfg.src R).toArray))
+    (hrun : runBudget cfg R itr ds = .ok (R', eff, rest)) :
+    ∃ s : St n (edgeCells cfg.src R).toArray.size, P s ∧ s.R = R' := by
+  unfold runBudget at hrun
+  simp only [bind, Except.bind] at hrun
+  cases hden : cfg.attDen with
+  | some den =>
+    simp only [hden] at hrun
+    split at hrun
+    · cases hrun
+    · rename_i v hi
+      simp only [Except.ok.injEq, Prod.mk.injEq] at hrun
+      exact ⟨v.1, iters_state cfg P hstep _ _ _ _ _ _ hi h0, hrun.1⟩
+  | none =>
+    simp only [hden] at hrun
+    split at hrun
+    · cases hrun
+    · rename_i v hi
+      simp only [Except.ok.injEq, Prod.mk.injEq] at hrun
+      exact ⟨v.1, untilSwaps_state cfg P hstep _ _ _ _ _ _ hi h0, hrun.1⟩
+
+/-- what one attempt of a *directed* routine does to the matrix, with no assumption on the state -/
+def WeakStepDir (cfg : Cfg n) (R R' : AMat Int n) : Prop :=
+  ∃ a b c d : Fin n, a ≠ c ∧ a ≠ d ∧ b ≠ c ∧ b ≠ d ∧ accept cfg R a b c d = true ∧ R' = swapDir R a b c d
+
+theorem attempt_cases_dir (cfg : Cfg n) (hu : cfg.und = false) (s s' : St n k) (ds rest : List ℕ) (ok : Bool)
+    (hrun : attempt cfg s ds = .ok (s', ok, rest)) : s'.R = s.R ∨ WeakStepDir cfg s.R s'.R := by
+  unfold attempt at hrun
+  simp only [bind, Except.bind] at hrun
+  cases hp : pickPair s ds.length ds with
+  | error e => simp [hp] at hrun
+  | ok pr =>
+    obtain ⟨⟨e1, e2⟩, rest1⟩ := pr
+    have hd := pickPair_spec s _ _ _ _ _ hp
+    simp only [hp, hu, Bool.false_eq_true, if_false] at hrun
+    split at hrun
+    · rename_i hacc
+      simp only [Except.ok.injEq, Prod.mk.injEq] at hrun
+      obtain ⟨rfl, _, _⟩ := hrun
+      exact Or.inr ⟨s.iv e1, s.jv e1, s.iv e2, s.jv e2, hd.1, hd.2.1, hd.2.2.1, hd.2.2.2, hacc, rfl⟩
+    · simp only [Except.ok.injEq, Prod.mk.injEq] at hrun
+      obtain ⟨rfl, _, _⟩ := hrun
+      exact Or.inl rfl
+
+/-- directed routines: a predicate stable under `WeakStepDir` survives every successful run — no
+hypothesis on the input matrix (any diagonal) -/
+theorem runBudget_preserves_dir (cfg : Cfg n) (hu : cfg.und = false) (Q : AMat Int n → Prop)
+    (R R' : AMat Int n) (itr eff : ℕ) (ds rest : List ℕ)
+    (hQ : ∀ X X' : AMat Int n, WeakStepDir cfg X X' → Q X → Q X') (q : Q R)
+    (hrun : runBudget cfg R itr ds = .ok (R', eff, rest)) : Q R' := by
+  obtain ⟨s, hs, rfl⟩ := runBudget_state cfg R R' itr eff ds rest (fun s => Q s.R) (by
+    intro s s' ds rest ok ha q
+    rcases attempt_cases_dir cfg hu s s' ds rest ok ha with he | hw
+    · rw [he]; exact q
+    · exact hQ _ _ hw q) q hrun
+  exact hs
+
+/-- the `triu1` edge list never lists a diagonal cell: the C01 invariant holds initially for every
+symmetric matrix, whatever its diagonal -/
+theorem mkState_inv_triu1 (R : AMat Int n) (hs : Symm R) :
+    RwInv true R.toFun (mkState R (edgeCells .triu1 R).toArray) := by
+  have hmem : ∀ e : Fin (edgeCells .triu1 R).toArray.size,
+      ((edgeCells .triu1 R).toArray[e]) ∈ edgeCells .triu1 R := by
+    intro e
+    have : (edgeCells .triu1 R).toArray[e] = (edgeCells .triu1 R)[e.val]'(by simpa using e.isLt) := by
+      simp
+    rw [this]; exact List.getElem_mem _
+  have hinj : ∀ e e' : Fin (edgeCells .triu1 R).toArray.size,
+      (edgeCells .triu1 R).toArray[e] = (edgeCells .triu1 R).toArray[e'] → e = e' := by
+    intro e e' h
+    have h1 : (edgeCells .triu1 R).toArray[e] = (edgeCells .triu1 R)[e.val]'(by simpa using e.isLt) := by simp
+    have h2 : (edgeCells .triu1 R).toArray[e'] = (edgeCells .triu1 R)[e'.val]'(by simpa using e'.isLt) := by simp
+    rw [h1, h2] at h
+    exact Fin.ext ((List.Nodup.getElem_inj_iff (nodup_edgeCells .triu1 R)).mp h)
+  have iv_eq : ∀ e, (mkState R (edgeCells .triu1 R).toArray).iv e = ((edgeCells .triu1 R).toArray[e]).1 := by
+    intro e; simp [St.iv, mkState]
+  have jv_eq : ∀ e, (mkState R (edgeCells .triu1 R).toArray).jv e = ((edgeCells .triu1 R).toArray[e]).2 := by
+    intro e; simp [St.jv, mkState]
+  have lt : ∀ e : Fin (edgeCells .triu1 R).toArray.size,
+      ((edgeCells .triu1 R).toArray[e]).1.val < ((edgeCells .triu1 R).toArray[e]).2.val :=
+    fun e => (mem_edgeCells .triu1 R _ (hmem e)).2.2 rfl
+  refine ⟨fun _ => rfl, fun _ => rfl, rfl, fun _ => rfl, fun _ => hs, (fun h => by cases h), ?_, fun _ => rfl⟩
+  refine ⟨?_, ?_, ?_, ?_⟩
+  · intro e; rw [iv_eq, jv_eq]; exact (mem_edgeCells .triu1 R _ (hmem e)).1
+  · intro e; rw [iv_eq, jv_eq]
+    intro hh
+    have := lt e
+    rw [hh] at this
+    exact Nat.lt_irrefl _ this
+  · intro e e' hne; rw [iv_eq, jv_eq, iv_eq, jv_eq]
+    intro ⟨h1, h2⟩
+    exact hne (hinj e e' (Prod.ext h1 h2))
+  · intro _ e e' _; rw [iv_eq, jv_eq, iv_eq, jv_eq]
+    intro ⟨h1, h2⟩
+    have a1 := lt e
+    have a2 := lt e'
+    rw [h1, h2] at a1
+    omega
+
+/-- `randomize_graph_partial_und`-like configurations (undirected, `triu1` edge list): a step-stable
+predicate survives every successful run on a symmetric matrix — any diagonal -/
+theorem runBudget_preserves_triu1 (cfg : Cfg n) (hu : cfg.und = true) (hsrc : cfg.src = .triu1)
+    (Q : AMat Int n → Prop) (R R' : AMat Int n) (itr eff : ℕ) (ds rest : List ℕ) (hs : Symm R)
+    (hQ : StepStable cfg R.toFun Q) (q : Q R)
+    (hrun : runBudget cfg R itr ds = .ok (R', eff, rest)) : Q R' := by
+  have h0 : RwInv cfg.und R.toFun (mkState R (edgeCells cfg.src R).toArray) := by
+    rw [hu, hsrc]; exact mkState_inv_triu1 R hs
+  obtain ⟨s, hsP, rfl⟩ := runBudget_state cfg R R' itr eff ds rest (fun s => RwInv cfg.und R.toFun s ∧ Q s.R) (by
+    intro s s' ds rest ok ha hp
+    exact ⟨attempt_inv cfg R.toFun s s' ds rest ok ha hp.1, attempt_preserves cfg R.toFun Q hQ s s' ds rest ok ha hp.1 hp.2⟩)
+    ⟨h0, q⟩ hrun
+  exact hsP.2
+
 end Bct.RewireConn
